@@ -35,6 +35,38 @@ class _StubSim(object):
         return []
 
 
+def _with_receiver(rs, name_a):
+    """(runs in a fork) execute three constructor calls of A's class, then generate A against that pool."""
+    from .engine import Sim
+    from . import clock
+    b = runner.BOOT
+    src = GenSource(rs ^ 0x5bd1e995, 'H', b['steps'], b['funcs'], b['calls'])
+    src.hammer = None
+    for k in ('p_repeat', 'p_life', 'p_cancel', 'p_check', 'p_alias'):
+        src.cfg[k] = 0.0
+    clock.set_zone(clock.zone_name(src.cfg['zone_min']))
+    clock.CLOCK.now = src.cfg['start']
+    sim = Sim(src, b['import_digest'], b['import_names'])
+    kind = name_a.split('.')[0]
+    ctor = kind + '.__init__'
+    if ctor not in ENTRIES:
+        return None
+    prefix = []
+    for _ in range(3):
+        op = src._make_named(sim, 0, 0, ctor)
+        if op is None:
+            continue
+        op['points'], op['cpoints'] = [], []
+        sim.run_op(op, 0)
+        prefix.append(op)
+    src.queues = {}
+    for _ in range(6):
+        a = src._make_named(sim, 0, 0, name_a)
+        if a is not None:
+            return prefix, a, src.next_id
+    return None
+
+
 def build_pair(seed, idx):
     """Seeded (plan skeleton, number of boundaries of A) for pair number idx, or None."""
     b = runner.BOOT
@@ -55,15 +87,26 @@ def build_pair(seed, idx):
         a = src._make_named(stub, 0, 0, name_a)
         if a is not None:
             break
+    prefix = []
     if a is None:
-        return None          # needs a receiver from the pool: left to the random engines
+        # A needs a receiver (or another pooled object): build a few objects of its class first, in a fork
+        try:
+            got = runner.fork_call(_with_receiver, (rs, name_a), 120.0)
+        except runner.HarnessError:
+            got = None
+        if got is None:
+            return None      # left to the random engines
+        prefix, a, nid = got
+        src.next_id = nid
     name_b = src._affine(name_a) if rng.random() < 0.8 else name_a
     bop = None
-    for cand in (name_b, name_a):
-        if cand.endswith('#bad'):
+    cands = [name_b, name_a, src._affine(name_a), src._affine(name_a), name_a.split('.')[0] + '.__init__',
+             'Coordinates.kepler_equation']
+    for cand in cands:
+        if cand.endswith('#bad') or cand not in ENTRIES:
             continue
         for _ in range(3):
-            bop = src._make_named(stub, 1, 1, cand)
+            bop = src._make_named(stub, 1, 1, cand)     # the intruder is built from scratch (its own fresh objects)
             if bop is not None:
                 break
         if bop is not None:
@@ -74,7 +117,7 @@ def build_pair(seed, idx):
         op['points'] = []
         op['cpoints'] = []
     src.queues = {}
-    plan = {'version': 1, 'seed': rs, 'cfg': dict(src.cfg, engine='N', sweep=True), 'ops': [a]}
+    plan = {'version': 1, 'seed': rs, 'cfg': dict(src.cfg, engine='N', sweep=True), 'ops': prefix + [a]}
     nb = int(b['calls'].get(name_a, 0))
     return plan, bop, nb, name_a, bop['name']
 
@@ -101,7 +144,7 @@ def run_pair(job):
     sk, pl = set(), set()
     for k in ks:
         p = copy.deepcopy(plan)
-        p['ops'][0]['cpoints'] = [{'call': k, 'kind': 'nest', 'op': copy.deepcopy(bop)}]
+        p['ops'][-1]['cpoints'] = [{'call': k, 'kind': 'nest', 'op': copy.deepcopy(bop)}]
         try:
             r = runner.run_plan(ReplaySource(p))
         except runner.HarnessError:
